@@ -218,6 +218,16 @@ def c12_lpc(ctx, case):
     ctx.close(al.astype(complex), np.asarray(a).astype(complex), "lpc vs aryule coefficients",
               rtol=0, atol=(1e-10 + 1e-12 * cond) * scale)
     ctx.check(np.isrealobj(al), "lpc returned complex coefficients for real data")
+    if p >= 2:
+        # the same record again at a lower order (an order scan downwards): each call stands alone
+        q = max(1, p // 2)
+        spectrum.lpc(x.tolist() if case["as_list"] else x.copy(), p)            # order p, then directly order q
+        lq = np.asarray(spectrum.lpc(x.tolist() if case["as_list"] else x.copy(), q)[0])
+        aq = np.asarray(spectrum.aryule(x, q, norm="biased")[0])
+        ctx.check(lq.shape == (q,), "lpc returned %d coefficients for order %d (called after order %d on the same record)" % (lq.size, q, p),
+                  sig={"clause": "lpc-after-lpc"})
+        ctx.close(lq.astype(complex), aq.astype(complex), "lpc(x, %d) called after lpc(x, %d) vs aryule(x, %d)" % (q, p, q),
+                  rtol=0, atol=(1e-10 + 1e-12 * cond) * max(1.0, float(np.max(np.abs(aq)))), sig={"clause": "lpc-after-lpc"})
 
 
 @sub("C12.pyule", strategy=yw_case(), quick=500, thorough=20000,
@@ -240,6 +250,10 @@ def c12_pyule(ctx, case):
     else:
         obj = spectrum.pyule(x, p, **kw)
     obj()
+    if N >= 8:
+        # a second object, evaluated before the first one is read
+        other = spectrum.pyule(np.random.default_rng(12345).standard_normal(24), 3 if p != 3 else 5)
+        other()
     ctx.close(np.asarray(obj.ar).astype(complex), np.asarray(a).astype(complex), "pyule.ar vs aryule", rtol=1e-12, atol=0)
     ctx.close(np.asarray(obj.reflection).astype(complex), np.asarray(k).astype(complex), "pyule.reflection vs aryule",
               rtol=1e-12, atol=0)
